@@ -14,6 +14,7 @@ import (
 	"math/rand"
 	"os"
 	"sort"
+	"sync"
 	"testing"
 
 	"github.com/MixinNetwork/mixin/common"
@@ -282,6 +283,40 @@ type vgWorld struct {
 	seq  int
 }
 
+var (
+	vgGenesisOnce   sync.Once
+	vgGenesisRounds []*common.Round
+	vgGenesisErr    error
+)
+
+func vgGenesisDoc() *common.Genesis {
+	inputs := make([]map[string]string, 0)
+	for i := 0; i < vgNC; i++ {
+		inputs = append(inputs, map[string]string{
+			"signer": vgAddr("SIGNER", i).String(), "payee": vgAddr("PAYEE", i).String(),
+			"custodian": vgAddr("CUSTODIAN", i).String(), "balance": "13439",
+		})
+	}
+	genesis := map[string]any{"epoch": vgEpoch, "nodes": inputs, "custodian": vgAddr("SIGNER", 0).String()}
+	data, err := json.Marshal(genesis)
+	if err != nil {
+		panic(err)
+	}
+	var gns common.Genesis
+	if err := json.Unmarshal(data, &gns); err != nil {
+		panic(err)
+	}
+	return &gns
+}
+
+// the genesis rounds are identical for every world (same generated keys)
+func vgGenesis() ([]*common.Round, error) {
+	vgGenesisOnce.Do(func() {
+		vgGenesisRounds, _, _, vgGenesisErr = vgGenesisDoc().BuildSnapshots()
+	})
+	return vgGenesisRounds, vgGenesisErr
+}
+
 func vgAddr(tag string, i int) common.Address {
 	h := crypto.Blake3Hash([]byte(fmt.Sprintf("vg-%s-%d", tag, i)))
 	h2 := crypto.Blake3Hash(h[:])
@@ -292,28 +327,13 @@ func vgAddr(tag string, i int) common.Address {
 }
 
 func vgNewWorld(t testing.TB, dir, tag string) *vgWorld {
-	internal.ToggleMockRunAggregators(true)
 	w := &vgWorld{t: t, dir: dir, tag: tag, refs: map[crypto.Hash]vgRef{}}
 	var signers []common.Address
-	inputs := make([]map[string]string, 0)
 	for i := 0; i < vgNC; i++ {
 		signers = append(signers, vgAddr("SIGNER", i))
-		inputs = append(inputs, map[string]string{
-			"signer": signers[i].String(), "payee": vgAddr("PAYEE", i).String(),
-			"custodian": vgAddr("CUSTODIAN", i).String(), "balance": "13439",
-		})
 	}
-	genesis := map[string]any{"epoch": vgEpoch, "nodes": inputs, "custodian": signers[0].String()}
-	data, err := json.Marshal(genesis)
-	if err != nil {
-		t.Fatal(err)
-	}
-	var gns common.Genesis
-	if err := json.Unmarshal(data, &gns); err != nil {
-		t.Fatal(err)
-	}
-	w.gns = &gns
-	netId := gns.NetworkId()
+	w.gns = vgGenesisDoc()
+	netId := w.gns.NetworkId()
 	for i := range signers {
 		w.ids = append(w.ids, signers[i].Hash().ForNetwork(netId))
 	}
@@ -343,7 +363,7 @@ func vgNewWorld(t testing.TB, dir, tag string) *vgWorld {
 	}
 	w.node = node
 	// final round 0 of every chain, from the genesis construction itself
-	rounds, _, _, err := w.gns.BuildSnapshots()
+	rounds, err := vgGenesis()
 	if err != nil {
 		t.Fatal(err)
 	}
@@ -487,9 +507,6 @@ func (w *vgWorld) obs() vM {
 		finrec[i] = err == nil && fr != nil && fr.NodeId == id && fr.Number+1 == r.Number && fr.Hash == r.References.Self
 		dl[i], ml[i] = make([]uint64, n), make([]uint64, n)
 		for j, jd := range w.ids {
-			if i == j {
-				continue
-			}
 			l, err := w.store.ReadLink(id, jd)
 			if err != nil {
 				panic(err)
@@ -502,8 +519,11 @@ func (w *vgWorld) obs() vM {
 		"ext": ext, "mext": mext, "has": has, "finrec": finrec, "dl": dl, "ml": ml}
 }
 
-func (w *vgWorld) step(tr *vTrace, op vgOp) {
+func (w *vgWorld) step(op vgOp) vM {
 	chain := w.chain(op.C)
+	if op.Ext == nil {
+		op.Ext = &vgRef{K: "U"}
+	}
 	ev := vM{"ev": "Op", "o": op}
 	dummy := false
 	var res string
@@ -565,7 +585,24 @@ func (w *vgWorld) step(tr *vTrace, op vgOp) {
 	}
 	ev["res"], ev["dummy"] = res, dummy
 	ev["obs"] = w.obs()
-	tr.Emit(ev)
+	return ev
+}
+
+// one walk on a fresh world; the events are returned (worlds run in parallel, the trace is written
+// in walk order)
+func vgRunWalk(t testing.TB, i int, walk []vgOp) []vM {
+	dir, err := os.MkdirTemp("", "vg-world-")
+	if err != nil {
+		t.Fatal(err)
+	}
+	defer os.RemoveAll(dir)
+	w := vgNewWorld(t, dir, fmt.Sprintf("%d-%d", vSeed(), i))
+	defer w.close()
+	evs := []vM{{"ev": "Reset", "obs": w.obs()}}
+	for _, op := range walk {
+		evs = append(evs, w.step(op))
+	}
+	return evs
 }
 
 func TestVerifRounds20(t *testing.T) {
@@ -573,17 +610,31 @@ func TestVerifRounds20(t *testing.T) {
 	defer tr.Close()
 	var cases vgCases
 	vLoadCases(t, &cases)
-	for i, walk := range cases.Walks {
-		dir, err := os.MkdirTemp("", "vg-world-")
-		if err != nil {
-			t.Fatal(err)
+	internal.ToggleMockRunAggregators(true)
+	if _, err := vgGenesis(); err != nil {
+		t.Fatal(err)
+	}
+	par := vEnvInt("VERIF_PAR", 8)
+	results := make([][]vM, len(cases.Walks))
+	jobs := make(chan int)
+	var wg sync.WaitGroup
+	for k := 0; k < par; k++ {
+		wg.Add(1)
+		go func() {
+			defer wg.Done()
+			for i := range jobs {
+				results[i] = vgRunWalk(t, i, cases.Walks[i])
+			}
+		}()
+	}
+	for i := range cases.Walks {
+		jobs <- i
+	}
+	close(jobs)
+	wg.Wait()
+	for _, evs := range results {
+		for _, ev := range evs {
+			tr.Emit(ev)
 		}
-		w := vgNewWorld(t, dir, fmt.Sprintf("%d-%d", vSeed(), i))
-		tr.Emit(vM{"ev": "Reset", "obs": w.obs()})
-		for _, op := range walk {
-			w.step(tr, op)
-		}
-		w.close()
-		os.RemoveAll(dir)
 	}
 }
